@@ -134,7 +134,7 @@ pub fn run_faulted(world: &mut World, cfg0: &TowerCfg, base: &Path, tag: &str, o
                         fr.during = Some(short_op(op));
                         // (2) the tower noticed the outage (its RPC failed, the call is waiting): no new work
                         if let Api::Remote(r) = &api {
-                            r.call_timeout_ms.store(8_000, Ordering::SeqCst);
+                            r.call_timeout_ms.store(20_000, Ordering::SeqCst);
                         }
                         let answers = probe(&api);
                         if let Api::Remote(r) = &api {
@@ -144,7 +144,7 @@ pub fn run_faulted(world: &mut World, cfg0: &TowerCfg, base: &Path, tag: &str, o
                             match code {
                                 Some(Code::Unavailable) => fr.unavailable_answers += 1,
                                 Some(Code::DeadlineExceeded) => {
-                                    fr.violation = Some(("C12:api-hangs-during-outage".into(), format!("while operation #{i} {} waits for the node (outage from node RPC #{}), {ep} got no answer at all within 8 s (expected 'service unavailable')", short_op(op), fault.rpc)));
+                                    fr.violation = Some(("C12:api-hangs-during-outage".into(), format!("while operation #{i} {} waits for the node (outage from node RPC #{}), {ep} got no answer at all within 20 s (expected 'service unavailable')", short_op(op), fault.rpc)));
                                 }
                                 Some(Code::Internal) | Some(Code::Unknown) => {
                                     fr.violation = Some((format!("C12:api-breaks-during-outage:{ep}"), format!("while operation #{i} {} waits for the node, {ep} got no proper answer ({code:?})", short_op(op))));
